@@ -85,8 +85,8 @@ fn run(g: &GeneratorState, mut m: M) -> M {
     m
 }
 fn any_machine() -> M { M { lo: kani::any(), hi: kani::any(), a: kani::any(), x: kani::any(), y: kani::any(), n: kani::any(), z: kani::any(), stk: 0, sp: 0, bad: false } }
-fn new_state<'a>(cs: &'a CompilerState) -> GeneratorState<'a> {
-    GeneratorState { compiler_state: cs, flags: FlagsState::Unknown, carry_flag_ok: false, acc_in_use: kani::any(), tmp_in_use: false, local_label_counter_if: 0, rec: [Rec::None; 10], n: 0, arith_path: false }
+fn new_state<'a>(cs: &'a CompilerState, acc_live: bool) -> GeneratorState<'a> {
+    GeneratorState { compiler_state: cs, flags: FlagsState::Unknown, carry_flag_ok: false, acc_in_use: acc_live, tmp_in_use: false, local_label_counter_if: 0, rec: [Rec::None; 10], n: 0, arith_path: false }
 }
 #[cfg(kani)]
 mod harness {
@@ -99,8 +99,8 @@ mod harness {
 H16 = """    #[kani::proof] #[kani::unwind(12)]
     fn %(name)s() {      // %(what)s
         let cs = CompilerState { v: Variable { var_type: VariableType::%(vt)s, memory: VariableMemory::Zeropage, var_const: false, signed: false, size: 1 } };
-        let mut g = new_state(&cs);
-        let acc_live = g.acc_in_use;
+        let acc_live = %(acc)s;
+        let mut g = new_state(&cs, acc_live);
         let operand = %(operand)s;
         let r = g.generate_plusplus(&operand, 0, %(pp)s);
         assert!(r.is_ok() && !g.arith_path);
@@ -119,7 +119,7 @@ H16 = """    #[kani::proof] #[kani::unwind(12)]
 H8 = """    #[kani::proof] #[kani::unwind(12)]
     fn %(name)s() {      // %(what)s
         let cs = CompilerState { v: Variable { var_type: VariableType::Char, memory: VariableMemory::Zeropage, var_const: false, signed: false, size: 1 } };
-        let mut g = new_state(&cs);
+        let mut g = new_state(&cs, kani::any());
         let operand = %(operand)s;
         let r = g.generate_plusplus(&operand, 0, %(pp)s);
         assert!(r.is_ok() && !g.arith_path);
@@ -136,7 +136,7 @@ H17 = """    #[kani::proof] #[kani::unwind(12)]
         let mem = if k %% 2 == 0 { VariableMemory::Superchip } else { VariableMemory::MemoryOnChip(1) };
         let vt = match (k / 2) %% 3 { 0 => VariableType::Char, 1 => VariableType::Short, _ => VariableType::CharPtr };
         let cs = CompilerState { v: Variable { var_type: vt, memory: mem, var_const: false, signed: false, size: 1 } };
-        let mut g = new_state(&cs);
+        let mut g = new_state(&cs, kani::any());
         let operand = %(operand)s;
         let r = g.generate_plusplus(&operand, 0, kani::any());
         let mut i = 0;
@@ -166,10 +166,11 @@ def build(repo):
         hs.append((name, text, cfgs))
         u.harnesses[name] = (props, nm, note)
     for pp, word, ar in (("true", "inc", "wrapping_add"), ("false", "dec", "wrapping_sub")):
-        add("pp_short_%s" % word, H16 % {"name": "pp_short_%s" % word, "what": "short variable, %s" % word, "vt": "Short", "operand": abs16, "pp": pp, "arith": ar},
-            ["C01"], "plusplus-short-%s" % word, "16-bit %s of a short: value +-1 mod 2^16, X/Y and a live A preserved, flags belief true" % word)
-        add("pp_shortptr_x_%s" % word, H16 % {"name": "pp_shortptr_x_%s" % word, "what": "array of shorts indexed by X, %s" % word, "vt": "ShortPtr", "operand": absx, "pp": pp, "arith": ar},
-            ["C01"], "plusplus-shortptr-x-%s" % word, "16-bit %s of v[X] (array of shorts): value, registers, flags belief" % word)
+        for accn, accv, accw in (("", "false", "accumulator free"), ("_acc", "true", "accumulator holds a live value")):
+            add("pp_short_%s%s" % (word, accn), H16 % {"name": "pp_short_%s%s" % (word, accn), "what": "short variable, %s, %s" % (word, accw), "vt": "Short", "operand": abs16, "pp": pp, "arith": ar, "acc": accv},
+                ["C01"], "plusplus-short-%s%s" % (word, accn.replace("_", "-")), "16-bit %s of a short (%s): value +-1 mod 2^16, X/Y and a live A preserved, flags belief true" % (word, accw))
+            add("pp_shortptr_x_%s%s" % (word, accn), H16 % {"name": "pp_shortptr_x_%s%s" % (word, accn), "what": "array of shorts indexed by X, %s, %s" % (word, accw), "vt": "ShortPtr", "operand": absx, "pp": pp, "arith": ar, "acc": accv},
+                ["C01"], "plusplus-shortptr-x-%s%s" % (word, accn.replace("_", "-")), "16-bit %s of v[X] (array of shorts, %s): value, registers, flags belief" % (word, accw))
         sign = "wrapping_add" if pp == "true" else "wrapping_sub"
         add("pp_char_%s" % word, H8 % {"name": "pp_char_%s" % word, "what": "char variable, %s" % word, "operand": abs8, "pp": pp, "check": "m.lo == m0.lo.%s(1) && m.hi == m0.hi && m.a == m0.a && m.x == m0.x && m.y == m0.y" % sign, "val": "m.lo"},
             ["C01"], "plusplus-char-%s" % word, "8-bit %s of a char: value, registers, flags belief (N and Z)" % word)
@@ -190,3 +191,34 @@ def build(repo):
     u.rewrites = ["R7: generate_plusplus verbatim as a method of a recording shim (both cfg variants: default features and atari2600)", "format! shadowed (A-local-label)"]
     u.dropped = ["callees generate_arithm / generate_assign (recorded only)"]
     return u
+
+
+def lift(harness, vals):
+    m = re.match(r"pp_(short|char)_(inc|dec)$", harness)
+    if not m:
+        return None
+    ints = []
+    for v in vals:
+        v = v.strip()
+        if re.match(r"^-?\d+$", v):
+            ints.append(int(v))
+        elif v in ("true", "false"):
+            ints.append(1 if v == "true" else 0)
+    # order of kani::any(): the machine: lo, hi, a, x, y, n, z (16-bit harnesses); for the 8-bit ones acc_in_use comes first
+    if len(ints) < 3:
+        return None
+    if m.group(1) == "short":
+        lo, hi = ints[0] & 0xff, ints[1] & 0xff
+    else:
+        lo, hi = ints[1] & 0xff, ints[2] & 0xff
+    op = "++" if m.group(2) == "inc" else "--"
+    if m.group(1) == "short":
+        before = lo | (hi << 8)
+        after = (before + (1 if op == "++" else -1)) & 0xffff
+        src = "short i; char r;\nvoid main() { r = 0; i%s; if (i) r = 1; }\n" % op
+        return {"source": src, "args": ["-O0"], "expect": {"panic": False}, "simulate": {"init16": {"i": before}, "expect16": {"i": after}, "expect": {"r": int(after != 0)}},
+                "note": "i = 0x%04x before `i%s`; C: i = 0x%04x, r = %d" % (before, op, after, int(after != 0))}
+    after = (lo + (1 if op == "++" else -1)) & 0xff
+    src = "char i, r;\nvoid main() { r = 0; i%s; if (i) r = 1; }\n" % op
+    return {"source": src, "args": ["-O0"], "expect": {"panic": False}, "simulate": {"init": {"i": lo}, "expect": {"i": after, "r": int(after != 0)}},
+            "note": "i = %d before `i%s`" % (lo, op)}
